@@ -3,7 +3,7 @@
    PathExtra.v and UfsProofsMirror.v).  Directories in canonical internal form are [render q] with
    every component of q good (non-empty, not "." or "..", no '/' and no '\'). *)
 From Coq Require Import List NArith ZArith Bool.
-From P9 Require Import Base.Res Model.Path Model.Ufs Proofs.PathProofs Proofs.UfsProofsPath Proofs.UfsProofsMirror Proofs.PathWalk.
+From P9 Require Import Base.Res Base.GoRt Model.Path Model.Ufs Proofs.PathProofs Proofs.UfsProofsPath Proofs.UfsProofsMirror Proofs.PathWalk Gen.GenPath Proofs.GenPathEq.
 Import ListNotations.
 
 (* 1. Validation accepts exactly the lists whose elements contain no separator, are neither empty nor
@@ -75,6 +75,56 @@ Theorem C16_towalk : forall p isabs steps, to_walk p = (isabs, Ok steps) ->
   (forall q, resolve_names q steps = resolve_len q (split_slash (trim_slash p))).
 Proof. exact to_walk_valid. Qed.
 Print Assumptions C16_towalk.
+
+(* 6. The tie, as theorems: [Gen/GenPath.v] is the translation of the CURRENT source of path.go
+      (harness/cmd/gen/gofn.go: every statement of the five helpers, regenerated before every build),
+      and the model the statements above are about computes, for every input, exactly what that
+      translation computes - including the panic of WalkName on an empty directory string and the
+      error texts, which the model drops.  A change of path.go that changes what a helper computes
+      breaks one of these proof obligations. *)
+Theorem C16_source_ValidPath : forall args, gen_ValidPath args = Ret (valid_path args).
+Proof. exact gen_ValidPath_eq. Qed.
+Print Assumptions C16_source_ValidPath.
+
+Theorem C16_source_NormalizePath : forall args, gen_NormalizePath args = Ret (normalize_path args).
+Proof. exact gen_NormalizePath_eq. Qed.
+Print Assumptions C16_source_NormalizePath.
+
+Theorem C16_source_CreateName : forall dir name,
+  gen_CreateName dir name =
+    match create_name dir name with
+    | Ok p => Ret (p, None)
+    | _ => Ret ([], Some invalid_path_text)
+    end.
+Proof. exact gen_CreateName_eq. Qed.
+Print Assumptions C16_source_CreateName.
+
+Theorem C16_source_WalkName : forall dir names,
+  gen_WalkName dir names =
+    match walk_name dir names with
+    | Ok p => Ret (p, None)
+    | Err _ => Ret (dir, Some invalid_path_text)
+    | _ => Pan
+    end.
+Proof. exact gen_WalkName_eq. Qed.
+Print Assumptions C16_source_WalkName.
+
+Theorem C16_source_ToWalk : forall p,
+  gen_ToWalk p =
+    match to_walk p with
+    | (isabs, Ok steps) => Ret (isabs, steps, None)
+    | (isabs, _) => Ret (isabs, [], Some (invalid_path_prefix ++ p))
+    end.
+Proof. exact gen_ToWalk_eq. Qed.
+Print Assumptions C16_source_ToWalk.
+
+(* the translated source, evaluated: "a/./../../b//" normalises to ["..","b"] with one leading "..",
+   and walking [".."; "a"] from /a/b gives /a/a *)
+Example C16_source_example :
+  gen_NormalizePath [[97%N]; [46%N]; DOTDOT; DOTDOT; [98%N]; []] = Ret ([DOTDOT; [98%N]], 1%Z) /\
+  gen_WalkName [47%N; 97%N; 47%N; 98%N] [DOTDOT; [97%N]] = Ret ([47%N; 97%N; 47%N; 97%N], None) /\
+  gen_WalkName [] [] = Pan.
+Proof. repeat split; vm_compute; reflexivity. Qed.
 
 (* non-vacuity *)
 Example C16_walk_example :
